@@ -17,6 +17,15 @@ import Glom.Model.C15
 namespace Glom.C15
 open Glom
 
+instance decEqExcept {ε α : Type} [DecidableEq ε] [DecidableEq α] : DecidableEq (Except ε α) :=
+  fun a b =>
+    match a, b with
+    | .ok x, .ok y => if h : x = y then isTrue (by rw [h]) else isFalse (fun h' => by injection h' with h'; exact h h')
+    | .error x, .error y =>
+      if h : x = y then isTrue (by rw [h]) else isFalse (fun h' => by injection h' with h'; exact h h')
+    | .ok _, .error _ => isFalse (fun h => by cases h)
+    | .error _, .ok _ => isFalse (fun h => by cases h)
+
 /-- `init()` as a value -/
 def initSV (h0 : Heap) : Init → Option SV
   | .int => some (.imm (.int 0))
